@@ -16,7 +16,7 @@ LEVEL = "exploration"
 RULE = ("a case is a history of 60-150 calls over 5 generated functions (signatures with <= 4 parameters over the five kinds; "
         "plain functions, bound methods whose instance state is part of the result, async functions) in equivalent call forms "
         "(positional / keyword / defaults spelled out or omitted), near-colliding twins (1 / 1.0 / True / '1', 'a' / b'a', "
-        "list / tuple, set / frozenset), dict and set arguments rebuilt in other insertion orders, direct calls and "
+        "list / tuple, set / frozenset), keywords that repeat the name of a positional-only parameter, equal str / bytes leaves built as one shared object or as distinct objects, dict and set arguments rebuilt in other insertion orders, direct calls and "
         "call_and_shelve(...).get(), compress in {False, True, 3}, in one process or 2-3 fresh processes taking turns on one "
         "directory; distinct_nontrivial counts distinct (signature, binding) pairs called through the cache")
 ASSUMPTIONS = [
